@@ -345,7 +345,11 @@ class FakeSnowflakeCursor:
                     cmd == "DROP SCHEMA"
                     and ident == self._conn.schema
                     # and it's in the current database, rather than a schema of the same name in another database
-                    and (not (schema := transformed.find(exp.Table)) or schema.catalog in ("", self._conn.database))
+                    # NB: with IF EXISTS sqlglot parses the database of the schema as the table's db rather than catalog
+                    and (
+                        not (schema := transformed.find(exp.Table))
+                        or (schema.db if schema.args.get("this") else schema.catalog) in ("", self._conn.database)
+                    )
                 ):
                     self._conn.schema = None
                     self._conn.schema_set = False
